@@ -38,7 +38,7 @@ def floatify(v):
 
 class Engine(EngineBase):
     def budget(self, tier):
-        return (480, 50.0) if tier == "quick" else (9000, 900.0)
+        return (1200, 55.0) if tier == "quick" else (9000, 900.0)
 
     def rule(self):
         return ("seeded scenario (1-5 jobs of assorted state point shapes, cache absent/complete/partial) x "
